@@ -33,8 +33,8 @@ URI = ("u1", "u2")
 def plan(tier, seed):
     if tier == "quick":
         return [{"bfs": {"n": 3, "depth": 5}, "random": 400}]
-    return [{"bfs": {"n": 3, "depth": 7}, "random": 0}, {"bfs": {"n": 4, "depth": 5}, "random": 0}] + \
-           [{"bfs": None, "random": 2200, "salt": i} for i in range(14)]
+    return [{"bfs": {"n": 3, "depth": 9}, "random": 0}, {"bfs": {"n": 4, "depth": 5}, "random": 0}] + \
+           [{"bfs": None, "random": 12000, "salt": i} for i in range(14)]
 
 
 # ---- state ----------------------------------------------------------------------------------------
